@@ -1541,3 +1541,166 @@ def _rename_range(ev, lo, hi, off):
 
 
 register(C07())
+
+
+# ======================================================================================
+# C15 - no_autodiff / mem-guard switches
+# ======================================================================================
+class C15(Prop):
+    id = "C15"
+    title = "no_autodiff / mem-guard switches are scoped, exception-safe, value-preserving"
+    rule = (
+        "random scope trees (depth <=6, <=30 nodes; no_autodiff / mem_guard_on / mem_guard_off as with-blocks or decorators, re-entrant use of the "
+        "same manager) whose bodies run MyGrad statements, process-wide toggles and explicit raises that unwind 1..k enclosing scopes; the "
+        "per-manager stack model is compared with the switches after every enter/exit/statement and every untracked statement is checked for "
+        "'nothing recorded'.  non-trivial when >=1 scope was left by an exception; distinct by (event kind, outcome)"
+    )
+    expected_probes = ["c15.switch_checked", "c15.exceptional_exit", "c15.untracked_statement_checked"]
+
+    def generate(self, rng):
+        cfg = {
+            "lane": rng.choice(["bare", "programs", "programs"]),
+            "id_policy": "never",
+            "max_elems": 6,
+            "max_ndim": 2,
+            "dtypes": ["f8"],
+            "tape": False,
+            "toggles_anywhere": rng.random() < 0.3,
+            "max_depth": rng.randint(1, 6),
+            "max_nodes": rng.randint(3, 30),
+        }
+        g = Gen(rng, cfg)
+        self.nodes = 0
+        g.leaf()
+        g.leaf()
+        g.arr()
+        n_top = rng.randint(1, 5)
+        for _ in range(n_top):
+            c = rng.random()
+            if c < 0.2:
+                g.emit({"k": "toggle", "on": rng.random() < 0.5})
+            elif c < 0.4 and cfg["lane"] != "bare":
+                self._stmt(g, rng)
+            else:
+                self._scope(g, rng, cfg, 0, [])
+        return {"prop": self.id, "cfg": cfg, "events": g.ev}
+
+    def _stmt(self, g, rng):
+        c8 = PROPS["C08"]
+        k = g.wchoice([("unary", 2), ("binary", 4), ("reduce", 1), ("view", 3), ("setitem", 2), ("iop", 1), ("ufunc", 2), ("backward", 1.5), ("leaf", 1), ("grab", 0.5), ("aview", 0.3),
+                       ("wrap", 0.5), ("drop_t", 0.7), ("fail", 0.7), ("misc", 0.7), ("null_grad", 0.2)])
+        if k == "backward" and not g.tracking and rng.random() < 0.5:
+            hs = g.float_tensors()
+            if hs:
+                g.emit({"k": "backward", "tgt": rng.choice(hs)})  # must do nothing
+            return
+        getattr(c8, "_g_" + k)(g, {}, 0)
+
+    def _scope(self, g, rng, cfg, depth, stack):
+        if self.nodes >= cfg["max_nodes"]:
+            return
+        self.nodes += 1
+        mgr = rng.choice(["no_autodiff", "mem_guard_on", "mem_guard_off"])
+        ev = {"k": "scope", "mgr": mgr, "style": rng.choice(["with", "with", "deco"]), "body": []}
+        outer = g._sink
+        g._sink = ev["body"]
+        was = g.tracking
+        if mgr == "no_autodiff":
+            g.tracking = False
+        inside_mem = any(m != "no_autodiff" for m in stack + [mgr])
+        for _ in range(rng.randint(0, 4)):
+            c = rng.random()
+            if c < 0.35 and depth + 1 < cfg["max_depth"]:
+                self._scope(g, rng, cfg, depth + 1, stack + [mgr])
+            elif c < 0.45 and (cfg["toggles_anywhere"] or inside_mem):
+                # (main lane: toggles only where a mem-guard scope's exit must overwrite them)
+                g.emit({"k": "toggle", "on": rng.random() < 0.5})
+            elif c < 0.6:
+                g.emit({"k": "raise", "levels": rng.randint(0, depth)})
+                break
+            elif cfg["lane"] != "bare":
+                self._stmt(g, rng)
+        g._sink = outer
+        g.tracking = was
+        g.emit(ev)
+
+    def observers(self, hist):
+        return [O.SwitchOracle(), O.NoAutodiffOracle()]
+
+    def nontrivial(self, world):
+        return world.probes.get("c15.exceptional_exit", 0) > 0
+
+
+register(C15())
+
+
+# ======================================================================================
+# C18 - save/load round trip
+# ======================================================================================
+class C18(Prop):
+    id = "C18"
+    title = "save/load round-trips data, dtype and gradient"
+    rule = (
+        "save events placed anywhere in mixed histories (tensor in a live graph with locked memory, with/without gradient, views with view "
+        "gradients, 0-d, every dtype, constants) to simulated file objects (seekable, at an offset, non-seekable, failing on the k-th write) and "
+        "to scratch paths (str/Path), load events later; round-trip equality, 'save alters nothing' snapshots, and a twin history without the "
+        "save/load events that must end bit-identically.  non-trivial when >=1 round trip of a tensor with a gradient was checked"
+    )
+    expected_probes = ["c18.save_checked", "c18.roundtrip_checked", "c18.roundtrip_with_grad"]
+
+    def generate(self, rng):
+        cfg = {
+            "lane": rng.choice(["plain", "plain", "faults"]),
+            "id_policy": "never",
+            "max_elems": rng.choice([6, 12]),
+            "max_ndim": rng.choice([1, 2, 3]),
+            "dtypes": rng.choice([["f8"], ["f8", "f4", "f2"], ["f8", "i8", "b1"], ["f4", "i4"]]),
+            "tape": True,
+            "checkpoints": True,
+            "const_flags": rng.random() < 0.3,
+        }
+        g = Gen(rng, cfg)
+        c8 = PROPS["C08"]
+        w = {"arr": 0.5, "aview": 0, "wrap": 0.5, "leaf": 3, "grab": 0.3, "unary": 3, "binary": 5, "reduce": 2, "view": 4, "adv": 1, "out_arr": 0, "setitem": 1.5, "iop": 1,
+             "ufunc": 1, "backward": 2.5, "clear": 0.2, "null_grad": 0.3, "drop_t": 1, "drop_a": 0, "gc": 0, "scope": 0, "toggle": 0, "write": 0, "fail": 0, "misc": 1}
+        fid = 0
+        saved = []
+        for _ in range(rng.randint(2, 6)):
+            c8._body(g, rng.randint(2, 8), w, 0)
+            hs = g.tensors()
+            if hs and rng.random() < 0.85:
+                src = rng.choice(hs)
+                if rng.random() < 0.35:
+                    sink = {"kind": "path", "as": rng.choice(["str", "Path"])}
+                else:
+                    sink = {"kind": "simfile", "seekable": rng.random() < 0.7, "offset": rng.choice([0, 0, 3, 17])}
+                    if cfg["lane"] == "faults" and rng.random() < 0.4:
+                        sink["fail_at"] = rng.randint(1, 6)
+                g.emit({"k": "save", "src": src, "sink": sink, "id": fid})
+                if "fail_at" not in sink:
+                    saved.append(fid)
+                fid += 1
+            if saved and rng.random() < 0.7:
+                h = g.new_h()
+                g.emit({"k": "load", "out": h, "id": rng.choice(saved)})
+        hs = [h for h in g.float_tensors() if not g.t[h].const]
+        if hs:
+            g.backward(rng.choice(hs))
+        return {"prop": self.id, "cfg": cfg, "events": g.ev}
+
+    def observers(self, hist):
+        return [O.SaveLoadOracle()]
+
+    def after_run(self, hist, w):
+        if not any(e["k"] == "save" for e in hist["events"]):
+            return
+        ev2 = [e for e in hist["events"] if e["k"] not in ("save", "load")]
+        loaded = {e["out"] for e in hist["events"] if e["k"] == "load"}
+        tw = run_twin(hist, ev2)
+        compare_checkpoints(w, tw, "C18", "C18.twin_without_save", grads="all", skip_handles=loaded, what="save-events-removed")
+
+    def nontrivial(self, world):
+        return world.probes.get("c18.roundtrip_with_grad", 0) > 0
+
+
+register(C18())
